@@ -254,14 +254,14 @@ class Gen(object):
       self.note('comprehension')
       inner = _Env()
       inner.bound = dict(env.bound)
-      inner.bound['q'] = 'int'
+      inner.bound['z'] = 'int'  # comprehension-only name (CPython 3.12 PEP 709 quirk, see DESIGN 6)
       inner.trydepth = env.trydepth
       inner.fn_depth = env.fn_depth
       inner.has_o = env.has_o
       elt = self.expr(inner, depth + 1, effects)
       it = self.choice(['range(%d)' % self.integer(0, 3), '[%s, %s]' % (e(), e()), 'l' if env.has_o else 'range(2)'])
-      form = self.choice(['sum([%s for q in %s])', 'len([%s for q in %s if q])', 'sum({%s for q in %s})',
-                          'sum({q: %s for q in %s}.values())'])
+      form = self.choice(['sum([%s for z in %s])', 'len([%s for z in %s if z])', 'sum({%s for z in %s})',
+                          'sum({z: %s for z in %s}.values())'])
       return form % (elt, it)
     if k == 'fncall':
       self.note('local_fn_call')
